@@ -41,7 +41,7 @@ def cases(rng, tier, X):
             r = rng.random()
             declared = None
             if r < 0.2:
-                declared = rng.choice([cap + 1, 0x7fff, 0xffff, nd + 1, 0])
+                declared = rng.choice([cap + 1, 0x7fff, 0x8000, 0xffff, nd + 1, 0, rng.choice(F.wrap_counts(14)), rng.choice(F.wrap_counts(14))])
             elif r < 0.3:
                 descs[rng.randrange(nd)] = (rng.choice([2, 3, 0xff]), 1, F.rand_mac(rng), F.rand_mac(rng))
             f = F.emit(mapper, own, rng.choice([1, 0x00ff, 0x0100, 0xffff, rng.randrange(1, 65536)]), descs, eth_src=eth, declared=declared)
